@@ -46,7 +46,7 @@ def check(ctx):
             ctx.ob("NAME.wrappers", st, f"{name} = _wrap_masked(np.ma.{name})", ok, "" if ok else f"wraps {tgt}")
     wm = mod.func("_wrap_masked")
     inner = [f for f in ast.walk(wm) if isinstance(f, ast.FunctionDef) and f is not wm]
-    ok = bool(inner) and any(Pat("blockwise(f, oinds, a, ainds, value, vinds, dtype=a.dtype)").match(r.value) is not None for r in returns(inner[0])) and [a.arg for a in inner[0].args.args] == ["a", "value"]
+    ok = bool(inner) and (all(Pat("blockwise(f, oinds, a, ainds, value, vinds, dtype=a.dtype)").match(r.value) is not None for r in returns(inner[0])) and bool(returns(inner[0]))) and [a.arg for a in inner[0].args.args] == ["a", "value"]
     ctx.ob("ARG.forwarding", wm, "_wrap_masked: blockwise(f, ..., a, ..., value, ...): (a, value) in order", ok)
     for qn, f in mod.functions():
         if "." in qn or qn.startswith("_"):
@@ -88,7 +88,7 @@ def check(ctx):
     cnt = mod.func("count")
     cs = [c for c in calls(cnt, "reduction")]
     cc = mod.func("_chunk_count")
-    ok = len(cs) == 1 and unparse(cs[0].args[1]) == "_chunk_count" and unparse(cs[0].args[2]) == "chunk.sum" and any(Pat("np.ma.count(x, axis=axis, keepdims=keepdims)").match(r.value) is not None for r in returns(cc))
+    ok = len(cs) == 1 and unparse(cs[0].args[1]) == "_chunk_count" and unparse(cs[0].args[2]) == "chunk.sum" and (all(Pat("np.ma.count(x, axis=axis, keepdims=keepdims)").match(r.value) is not None for r in returns(cc)) and bool(returns(cc)))
     ctx.ob("ALG.count", cnt, "ma.count = reduction(np.ma.count per block, chunk.sum)", ok, "" if ok else "per-block counts of unmasked elements must be summed")
     # ---------------- masked results of std/nanstd: np.ma.masked is a 0-d constant
     red = ctx.model.module("dask/array/reductions.py")
